@@ -7,6 +7,8 @@ package main
 //   recursion-limit  direct / mutual / through-match recursion at limit-1, limit, limit+1 (the limit is
 //                    4096 open frames; calls and match bodies each take one), started at frame depth
 //                    0, 1, 2 and after a history; runaway recursion of every shape; depth 1000 works
+//   limit-after-history  the same boundary after 5 000 .. 200 000 records each of which leaves a call or a
+//                    match body by next / return / break / continue
 //   array-fill       assignment at index 2^20-1 / 2^20 / 2^20+1 (only 2^20 and 2^20+1 in quick), on empty,
 //                    non-empty, unset and nested targets; negative / fractional / huge / NaN indices, read
 //                    and write
@@ -175,6 +177,164 @@ func c20Recursion(r *rand.Rand, tier string, emit func(Case)) {
 	}
 	for _, prog := range runaway {
 		c20Emit(emit, prog, []File{{Name: "in.json", Data: []byte("[1]")}}, "runtime", c20Exact("start\n"), "runaway recursion")
+	}
+}
+
+// ---------------------------------------------------------------- the limit after a long history
+
+// one way in which every record of a long input leaves a call or a match body
+// early; sum gives the value of c that END must print after the number
+// records vs (each record is one of 0..9)
+type c20Leaver struct {
+	name  string
+	funcs string
+	rules string
+	sum   func(vs []int) int
+}
+
+func c20Count(vs []int, keep func(v int) int) int {
+	t := 0
+	for _, v := range vs {
+		t += keep(v)
+	}
+	return t
+}
+
+var c20Leavers = []c20Leaver{
+	{"next-in-function", "function lv(v) { if (v % 2 == 0) next\n return 1 }\n", "{ tot = tot + lv($) }\n",
+		func(vs []int) int { return c20Count(vs, func(v int) int { return v % 2 }) }},
+	{"next-in-function-always", "function lv(v) { tot = tot + 1\n next }\n", "{ lv($) }\n{ tot = tot + 1000 }\n",
+		func(vs []int) int { return len(vs) }},
+	{"next-3-calls-deep-through-match-bodies", "function la(v) { return match (v) { w => lb(w) } }\nfunction lb(v) { match (v) { w => { for (q in [1]) { return ld(w) } } } }\nfunction ld(v) { if (v % 3 != 0) next\n return 1 }\n",
+		"{ tot = tot + la($) }\n",
+		func(vs []int) int {
+			return c20Count(vs, func(v int) int {
+				if v%3 == 0 {
+					return 1
+				}
+				return 0
+			})
+		}},
+	{"next-in-match-block-of-rule", "", "{ match ($ % 2) { 0 => { next }, w => { tot = tot + 1 } } }\n{ tot = tot + 10 }\n",
+		func(vs []int) int { return c20Count(vs, func(v int) int { return 11 * (v % 2) }) }},
+	{"next-in-nested-match-expression-bodies", "function lv(v) { if (v > 2) next\n return v }\n", "{ tot = tot + match ($) { w => match (w + 1) { x => lv(w) + x } } }\n",
+		func(vs []int) int {
+			return c20Count(vs, func(v int) int {
+				if v > 2 {
+					return 0
+				}
+				return 2*v + 1
+			})
+		}},
+	{"next-in-rule-pattern-call", "function lv(v) { if (v % 2 == 0) next\n return true }\n", "lv($) { tot = tot + 1 }\n",
+		func(vs []int) int { return c20Count(vs, func(v int) int { return v % 2 }) }},
+	{"next-in-loops-in-match-in-function", "function lv(v) { for (j in [1, 2]) { match (v % 2) { 0 => { while (true) { next } } } }\n return 1 }\n", "{ tot = tot + lv($) }\n",
+		func(vs []int) int { return c20Count(vs, func(v int) int { return v % 2 }) }},
+	{"return-from-nested-loops", "function lv(v) { for (e1 in [1, 2]) { while (true) { for (j = 0; j < 3; j++) { if (j == v % 3) return j + 1 } } } }\n", "{ tot = tot + lv($) }\n",
+		func(vs []int) int { return c20Count(vs, func(v int) int { return v%3 + 1 }) }},
+	{"return-from-match-block-in-loop-in-match", "function lv(v) { return match (v) { w => li(w) } }\nfunction li(v) { for (j in [1, 2]) { match (j) { 1 => { return v } } } }\n", "{ tot = tot + lv($ % 2) }\n",
+		func(vs []int) int { return c20Count(vs, func(v int) int { return v % 2 }) }},
+	{"break-through-match-body-in-function", "function lv(v) { m = 0\n for (j in [1, 2, 3]) { match (j) { 2 => { break }, w => { m = m + 1 } } }\n return m }\n", "{ tot = tot + lv($) }\n",
+		func(vs []int) int { return len(vs) }},
+	{"break-through-match-body-in-rule", "", "{ for (j in [1, 2, 3]) { match (j) { 2 => { break }, w => { tot = tot + 1 } } } }\n",
+		func(vs []int) int { return len(vs) }},
+	{"break-through-nested-match-bodies", "", "{ while (true) { match ($) { w => { match (w) { x => { tot = tot + 1\n break } } } } } }\n",
+		func(vs []int) int { return len(vs) }},
+	{"continue-through-match-body-in-rule", "", "{ for (j = 0; j < 3; j++) { match (j) { 1 => { continue }, w => { tot = tot + 1 } } } }\n",
+		func(vs []int) int { return 2 * len(vs) }},
+	{"continue-through-match-body-in-function", "function lv(v) { m = 0\n for (j in [1, 2, 3]) { match (j % 2) { 1 => { continue } }\n m = m + v }\n return m }\n", "{ tot = tot + lv($) }\n",
+		func(vs []int) int { return c20Count(vs, func(v int) int { return v }) }},
+	{"completed-calls-and-matches", "function lv(v) { return match (v) { x => { return x } } }\n", "{ tot = tot + lv(1) + match ($) { y => 0 } }\n",
+		func(vs []int) int { return len(vs) }},
+	{"mixed-by-record", "function lv(v) { if (v == 0) next\n if (v == 1) return match (v) { w => { return 5 } }\n for (j in [1, 2]) { match (v) { 2 => { break }, 3 => { continue }, w => { return 7 } } }\n return 2 }\n", "{ tot = tot + lv($ % 5) }\n",
+		func(vs []int) int {
+			return c20Count(vs, func(v int) int { return []int{0, 5, 2, 2, 7}[v%5] })
+		}},
+}
+
+// c20History emits the boundary programs of one leaver after n records: the
+// recursion of shape s is started in a later record (["go"]) and again in END.
+func c20History(r *rand.Rand, emit func(Case), lv c20Leaver, s c20Shape, n int, which []int) {
+	extra := r.Intn(2) // frames open where the recursion starts in the record: rule level, or a match body
+	top := c20MaxArg(s, c20Limit-extra)
+	topEnd := c20MaxArg(s, c20Limit)
+	var doc strings.Builder
+	var vs []int
+	doc.WriteByte('[')
+	for i := 0; i < n; i++ {
+		v := (i*7 + i/10) % 10
+		vs = append(vs, v)
+		doc.WriteString(fmt.Sprint(v))
+		doc.WriteByte(',')
+	}
+	doc.WriteString(`["go"]`)
+	for _, v := range []int{0, 1, 2, 3} { // the history goes on after the probe
+		vs = append(vs, v)
+		doc.WriteString("," + fmt.Sprint(v))
+	}
+	doc.WriteByte(']')
+	files := []File{{Name: "in.json", Data: []byte(doc.String())}}
+	c := lv.sum(vs)
+	type probe struct{ rec, end int } // arguments of the recursion in the record and in END
+	probes := []probe{{top - 1, topEnd - 1}, {top, topEnd}, {top + 1, topEnd}, {top, topEnd + 1}}
+	for _, pi := range which {
+		p := probes[pi]
+		recCall := fmt.Sprintf(s.call, p.rec)
+		recRule := "$ is array { print \"rec\", " + recCall + "\n next }\n"
+		if extra == 1 {
+			recRule = "$ is array { match (1) { 1 => { print \"rec\", " + recCall + " } }\n next }\n"
+		}
+		prog := s.funcs + lv.funcs + "BEGIN { print \"start\"\n tot = 0 }\n" + recRule + lv.rules + "END { print \"end\", tot\n print " + fmt.Sprintf(s.call, p.end) + " }\n"
+		want, class := "start\n", "ok"
+		if s.frames(p.rec)+extra <= c20Limit {
+			want += "rec " + s.result(p.rec) + "\n" + fmt.Sprintf("end %d\n", c)
+			if s.frames(p.end) <= c20Limit {
+				want += s.result(p.end) + "\n"
+			} else {
+				class = "runtime"
+			}
+		} else {
+			class = "runtime"
+		}
+		probeText := fmt.Sprintf("%d records leaving by %s, then %s recursion: %d frames open at the deepest point in the record, %d in END (limit %d)",
+			n, lv.name, s.name, s.frames(p.rec)+extra, s.frames(p.end), c20Limit)
+		exact := c20Exact(want)
+		wantClass := class
+		emit(Case{Req: RunReq(prog, nil, files, false), Fields: []string{"class", "out"},
+			Meta: metaProg(prog, "probe", probeText, "input", fmt.Sprintf("%d number records, [\"go\"], 4 more", n), "row", lv.name, "col", fmt.Sprintf("%d records", n)),
+			Oracle: func(i Resp) string {
+				if i["class"] != wantClass {
+					return "the limit counts open frames only, the same boundary as in a fresh run is expected: class " + wantClass + ", got " + i["class"] + " " + i["msg"]
+				}
+				if wantClass == "ok" && i["depth"] != "" && i["depth"] != "0" {
+					return "frame depth after the run is " + i["depth"] + ", expected 0"
+				}
+				return exact(string(i.Bytes("out")))
+			},
+			NonTrivial: func(i Resp) bool { return i["class"] == wantClass }})
+	}
+}
+
+func c20AfterHistory(r *rand.Rand, tier string, emit func(Case)) {
+	sizes := []int{5000, 10000}
+	for li, lv := range c20Leavers {
+		for _, n := range sizes {
+			// two of the four probes per size in the quick tier, all four between the two sizes
+			which := []int{0, 2}
+			if n == 10000 {
+				which = []int{1, 3}
+			}
+			if tier == "thorough" {
+				which = []int{0, 1, 2, 3}
+			}
+			c20History(r, emit, lv, c20Shapes[(li+n/5000)%len(c20Shapes)], n, which)
+		}
+		if tier == "thorough" {
+			for _, n := range []int{4095, 4096, 4097, 50000} {
+				c20History(r, emit, lv, pick(r, c20Shapes), n, []int{1, 2, 3})
+			}
+			c20History(r, emit, lv, c20Shapes[0], 200000, []int{1, 2})
+		}
 	}
 }
 
@@ -405,6 +565,11 @@ func init() {
 		Name: "recursion-limit", Prop: "C20",
 		Rule: "8 recursion shapes (direct, through a loop body, mutual of 2 and 3 functions, through match expression / block bodies, match at the leaf only, nested matches) x 5 starting contexts (frame depth 0, 1, 2, a rule pattern, END after 5000 completed calls and matches) x arguments putting the deepest point at limit-1, limit, limit+1, limit+2, limit+1000 frames (limit 4096) and depth 0, 1, 1000; 10 runaway recursions; oracle: exact output (result when it fits, else runtime error with the prior output kept)",
 		Gen:  c20Recursion,
+	})
+	register(Family{
+		Name: "limit-after-history", Prop: "C20",
+		Rule: "16 ways of leaving a call or a match body early on every record (next inside a function: sometimes / always / three calls deep through match bodies / from a rule pattern / from loops in a match in a function; next in a match block of the rule and in nested match expression bodies; return from nested loops and from a match block in a loop in a match; break and continue through one and two match bodies, in a rule and in a function; completed calls and matches; a mix chosen by the record) over 5 000 and 10 000 records (thorough: also 4 095 / 4 096 / 4 097, 50 000, 200 000), then in a later record (at rule level or inside a match body) and again in END a recursion (the 8 shapes of recursion-limit) whose deepest point is at limit-1, limit, limit+1 frames; oracle: the same boundary as in a fresh run (4096 open frames), exact output, frame depth 0 at the end",
+		Gen:  c20AfterHistory,
 	})
 	register(Family{
 		Name: "array-fill", Prop: "C20",
